@@ -144,6 +144,21 @@ def run(ctx):
         if not require(name):
             continue
         fn = methods[name]
+        # identity shortcut: `if other is self: return <constant>` answers without looking at the value
+        fb = body_wo_doc(fn)
+        oname = fn.args.args[1].arg if len(fn.args.args) > 1 else 'other'
+        short = [st for st in fb if isinstance(st, ast.If) and norm(st.test) in ('%s is self' % oname, 'self is %s' % oname)
+                 and st.body and isinstance(st.body[0], ast.Return)]
+        if short:
+            rv = norm(short[0].body[0].value)
+            _v(ctx, 'C20.D1', fn,
+               'q = Quantity(float("nan"), "kg"): q %s q gives %s, the bare value gives nan %s nan = %s -- the identity '
+               'shortcut answers without comparing the value' % (
+                   {'Eq': '==', 'NotEq': '!=', 'Lt': '<', 'LtE': '<=', 'Gt': '>', 'GtE': '>='}[op], rv,
+                   {'Eq': '==', 'NotEq': '!=', 'Lt': '<', 'LtE': '<=', 'Gt': '>', 'GtE': '>='}[op],
+                   {'Eq': False, 'NotEq': True, 'Lt': False, 'LtE': False, 'Gt': False, 'GtE': False}[op]),
+               'Qty.%s short-cuts on identity (`%s`) before comparing values; NaN is not equal to itself' % (name, norm(short[0].test)))
+            continue
         try:
             got, ev = nf_of(name)
         except Unsupported as e:
